@@ -11,14 +11,14 @@ sys.path.insert(0, os.path.join(HERE, "analysis", "rules"))
 
 TECH = {
     "C01": "wire-layout automata inclusion (encode vs decode), sort/dominance rules, composition of C08/C10/C14/C15/C16 rule sets over MIR",
-    "C02": "panic-site inventory on the decode call graph: interval abstract interpretation + dominance over MIR built with overflow checks",
-    "C03": "term dataflow + bit provenance + linear guard normal forms over MIR of MessageFrame::new; dependency constant-table check",
+    "C02": "panic-site inventory on the decode call graph: interval abstract interpretation with relational loop invariants + dominance over MIR built with overflow checks; partitioned abstract interpretation for the interiors of parse and MessageFrame::new",
+    "C03": "abstract interpretation of MessageFrame::new (symbolic bytes and length, partitioned on the payload length class) against the acceptance decision table; fallback: term dataflow + bit provenance + linear guard normal forms; dependency constant-table check",
     "C04": "C03 rule instances + GF(2) generator algebra + scanner skip rule",
     "C05": "CFG return classification by dominating facts, term dataflow over next_msg_frame / MsgFrameIter",
     "C06": "conjunction of statically checked clauses of the chunking lemma (C03/C05/C13 rule instances)",
-    "C07": "dominance / no-store-on-error-path, truth-table canonicalisation of the merge, width intervals at every put/parse call site",
+    "C07": "abstract interpretation of put/parse MIR with trace partitioning on (offset mod 8, width, carrier) - affine cursor domain, constant propagation, Boolean-function domain per bit - compared with the bit-placement specification; same for sign_fix/sign_fix_rev of the 15 carriers; plus dominance / width-interval rules at every call site",
     "C08": "per-field model extraction from MIR + exact rational error-bound obligations",
-    "C09": "panic-site inventory on the encode call graph (intervals, dominance), bit provenance of header/CRC bytes",
+    "C09": "panic-site inventory on the encode call graph (intervals, dominance; partitioned abstract interpretation for the interior of put), bit provenance of header/CRC bytes",
     "C10": "guard inventory with interval-exact accepted ranges, term templates for mask bits, sort dominance, sibling identity over 49 MSM instances",
     "C11": "round-half-away template matching on extracted field models + exact rational bound",
     "C12": "typestate (clean/dirty buffer) via must-pass-through and dominance on build_message; interval of wiped range",
